@@ -77,6 +77,13 @@ def lexical_classes():
         ("truncated", b'{"data": {"a": 1}'),
         ("leading_zero_number", b'{"data": {"a": 01}}'),
     ]
+    # long bodies with a multi-byte character around the 1 KiB / 4 KiB / 64 KiB marks (previews, buffers)
+    for mark in (1024, 4096, 65536):
+        for off in (-2, -1, 0):
+            pad = "x" * (mark + off - len('{"data": {"a": 1}, "pad": "'))
+            out.append((f"long_json_multibyte_at_{mark}{off:+d}", ('{"data": {"a": 1}, "pad": "' + pad + '\u00e9\u20ac\U0001F600"}').encode("utf-8")))
+        out.append((f"long_nonjson_multibyte_at_{mark}", ("y" * (mark - 1) + "\u00e9\u20ac tail").encode("utf-8")))
+        out.append((f"long_errors_multibyte_at_{mark}", json.dumps({"errors": [{"message": "m" * (mark - 30) + "\u00e9\u20ac"}]}, ensure_ascii=False).encode("utf-8")))
     return out
 
 
